@@ -770,6 +770,24 @@ def gen_flat(out, parts):
     fn = T.find_def(tree, "BaseParametrization.flat_mesh", BASE)
     check_callable(BASE, fn, ("property",), ())
     parts.append(("BaseParametrization.flat_mesh", T.sha(src, fn)))
+    # guard positions: `if self.uvs is None: return None` FIRST, then `if self._flat_mesh is None: <copy; loops>`, then return
+    fb = T.body_nodoc(fn)
+
+    def is_none_test(t, what):
+        return (isinstance(t, ast.Compare) and T.dotted(t.left) == what and len(t.ops) == 1 and isinstance(t.ops[0], ast.Is)
+                and isinstance(t.comparators[0], ast.Constant) and t.comparators[0].value is None)
+    ok = (len(fb) == 3 and isinstance(fb[0], ast.If) and is_none_test(fb[0].test, "self.uvs") and not fb[0].orelse
+          and len(fb[0].body) == 1 and isinstance(fb[0].body[0], ast.Return)
+          and isinstance(fb[0].body[0].value, ast.Constant) and fb[0].body[0].value.value is None
+          and isinstance(fb[1], ast.If) and is_none_test(fb[1].test, "self._flat_mesh") and not fb[1].orelse
+          and len(fb[1].body) == 2 and isinstance(fb[1].body[0], ast.Assign)
+          and T.dotted(fb[1].body[0].targets[0]) == "self._flat_mesh" and isinstance(fb[1].body[0].value, ast.Call)
+          and T.dotted(fb[1].body[0].value.func) == "copy" and [T.dotted(a) for a in fb[1].body[0].value.args] == ["self.mesh"]
+          and isinstance(fb[1].body[1], ast.For)
+          and isinstance(fb[2], ast.Return) and T.dotted(fb[2].value) == "self._flat_mesh")
+    if not ok:
+        T.fail(BASE, fn, "flat_mesh is not `if self.uvs is None: return None; if self._flat_mesh is None: "
+                         "self._flat_mesh = copy(self.mesh); <loops>; return self._flat_mesh`")
     fors = [n for n in ast.walk(fn) if isinstance(n, ast.For)]
     if len(fors) != 2:
         T.fail(BASE, fn, "flat_mesh does not consist of two nested loops")
